@@ -549,6 +549,9 @@ pub mod fs {
         // environmental fault exactly when create_new meets an existing file or neither create flag is set and the file is missing
         #[verifier::external_body] pub fn open<P: PathLike>(self, p: P, Tracked(w): Tracked<&mut World>) -> (r: Result<File, std::io::Error>)
             requires self.wr ==> recoverable(*old(w)),
+                // create_new fails on an existing file for no fault of the environment: a caller that uses it owes the argument that the
+                // file cannot exist (none of the repository's writers does; each opens with create + truncate)
+                self.cn ==> !old(w).fs.dom().contains(p.pview()),
             ensures
                 final(w).ptr == old(w).ptr, final(w).last == old(w).last, final(w).ptr_new == old(w).ptr_new, final(w).io_faults >= old(w).io_faults,
                 r matches Ok(f) ==> f.pos == 0 && f.p == p.pview() && f.content == final(w).fs[p.pview()] && final(w).io_faults == old(w).io_faults && final(w).fs == old(w).fs.insert(p.pview(),
